@@ -234,13 +234,13 @@ func kids0name(kids []*Node, k *Node) (string, string) {
 func (n *Node) addMisc(r *rand.Rand, hasText bool) {
 	misc := []Item{}
 	if r.Intn(4) == 0 {
-		misc = append(misc, Item{Kind: KComment, Text: []string{" c ", "note", "a-b", "x<y&z", ""}[r.Intn(5)]})
+		misc = append(misc, Item{Kind: KComment, Text: []string{" c ", "note", "a-b", "x<y&z", "", "a> <b", "p>\n\t<q"}[r.Intn(7)]})
 	}
 	if r.Intn(8) == 0 {
-		misc = append(misc, Item{Kind: KDirective, Text: []string{"ENTITY e \"v\"", "X y", "DOCTYPE q"}[r.Intn(3)]})
+		misc = append(misc, Item{Kind: KDirective, Text: []string{"ENTITY e \"v\"", "X y", "DOCTYPE q", "ENTITY f \"v> <w\""}[r.Intn(4)]})
 	}
 	if r.Intn(6) == 0 {
-		misc = append(misc, Item{Kind: KPI, Target: []string{"pi", "php", "x-y"}[r.Intn(3)], Text: []string{"a=\"b\"", "do it", "x"}[r.Intn(3)]})
+		misc = append(misc, Item{Kind: KPI, Target: []string{"pi", "php", "x-y"}[r.Intn(3)], Text: []string{"a=\"b\"", "do it", "x", "x> <y"}[r.Intn(4)]})
 	}
 	for _, m := range misc {
 		lo := 0
